@@ -92,7 +92,10 @@ func S3(maxPacket, ops, digests, dups, holds int) *Scenario {
 
 // S4: membership: leave (every subset of peers missing the notification),
 // crash, suspicion, recovery, expiry sweeps with skew, re-learning.
-func S4(n, digests, dups, holds, sweeps, suspects int, crash bool) *Scenario {
+func S4(n, digests, dups, holds, sweeps, suspects int, crash bool, ops int) *Scenario {
+	if ops == 0 {
+		ops = 2
+	}
 	ids := []string{"nA", "nB", "nC", "nD"}[:n]
 	var init []Event
 	for i := 1; i < n; i++ {
@@ -115,7 +118,7 @@ func S4(n, digests, dups, holds, sweeps, suspects int, crash bool) *Scenario {
 	}
 	sc := &Scenario{
 		Name: "S4-membership", IDs: ids, MaxPacket: 1400, Init: init,
-		Ops: map[int][]Event{last: {{Kind: "leave"}, {Kind: "up", K: "a", V: "1"}}}, MaxOps: map[int]int{last: 2},
+		Ops: map[int][]Event{last: {{Kind: "leave"}, {Kind: "up", K: "a", V: "1"}, {Kind: "del", K: "a"}, {Kind: "compact"}}}, MaxOps: map[int]int{last: ops},
 		LeaveMasks: true,
 		Digests:    pairs(n), MaxDigests: digests, Perms: "id", MaxDups: dups, MaxInflight: 3, MaxHolds: holds,
 		Suspects: susp, MaxSuspect: suspects, MaxSweeps: sweeps, Sweepers: sweepers,
@@ -227,7 +230,7 @@ func Build(p Params) *Scenario {
 	case "S3":
 		sc = S3(p.MaxPacket, p.Ops, p.Digests, p.Dups, p.Holds)
 	case "S4":
-		sc = S4(p.N, p.Digests, p.Dups, p.Holds, p.Sweeps, p.Suspects, p.Flag)
+		sc = S4(p.N, p.Digests, p.Dups, p.Holds, p.Sweeps, p.Suspects, p.Flag, p.Ops)
 	case "S5":
 		sc = S5(p.MaxPacket, p.Ops, p.Digests, p.Dups, p.Holds)
 	case "S6":
